@@ -112,6 +112,8 @@ func (dec *decoder) popValueAsBytes() (json.RawMessage, error) {
 }
 
 type fieldError struct {
+	// pathToField is kept innermost first, so that adding a parent while the
+	// error travels up through nested values is an append.
 	pathToField []string
 	err         error
 }
@@ -131,12 +133,16 @@ func unexpectedTokenError(got, expected interface{}) error {
 }
 
 func (e fieldError) Error() string {
-	return fmt.Sprintf("field %s: %s", strings.Join(e.pathToField, "."), e.err.Error())
+	outerFirst := make([]string, len(e.pathToField))
+	for idx, field := range e.pathToField {
+		outerFirst[len(e.pathToField)-1-idx] = field
+	}
+	return fmt.Sprintf("field %s: %s", strings.Join(outerFirst, "."), e.err.Error())
 }
 
 func (e fieldError) parent(field string) error {
 	return fieldError{
-		pathToField: append([]string{field}, e.pathToField...),
+		pathToField: append(e.pathToField, field),
 		err:         e.err,
 	}
 }
